@@ -498,6 +498,12 @@ impl<'g> Exec<'g> {
         let mut gen_ctr = 0u64;
         let mut last_failed: HashMap<(u64, u64), bool> = HashMap::new();
         let mut dropped_doc_recent = false;
+        // Taint ("derived from a value holding an expression reference", i.e. not
+        // JSON-representable: excluded from cross-build comparison) must be the same in
+        // every build, so it follows the *definitions*, never what happened to resolve:
+        // a slot keeps its taint even when its document could not be built.
+        let mut ptaint: Vec<bool> = vec![false; D_SLOTS];
+        let mut search_taint: HashMap<u64, bool> = HashMap::new();
 
         for (i, op) in ops.iter().enumerate() {
             self.stats.bump(&format!("op.{}", op.kind()));
@@ -573,6 +579,16 @@ impl<'g> Exec<'g> {
                 }
                 Op::NewDoc { d, spec } => {
                     let d = *d % D_SLOTS;
+                    let pt = match spec {
+                        DocSpec::Json(_) | DocSpec::Deep { .. } => false,
+                        DocSpec::Compose { parts, .. } => parts.iter().any(|&p| p % D_SLOTS != d && ptaint[p % D_SLOTS]),
+                        DocSpec::Sub { of, .. } => *of % D_SLOTS != d && ptaint[*of % D_SLOTS],
+                        DocSpec::ResultOf(id) => {
+                            search_taint.get(id).copied().unwrap_or(false)
+                                || results.get(id).map_or(false, |(_, t)| *t)
+                        }
+                    };
+                    ptaint[d] = pt;
                     let built: Option<Doc> = match spec {
                         DocSpec::Json(t) => match Variable::from_json(t) {
                             Ok(v) => Some(Doc {
@@ -592,7 +608,6 @@ impl<'g> Exec<'g> {
                             if ps.is_empty() {
                                 None
                             } else {
-                                let tainted = ps.iter().any(|p| p.tainted);
                                 let var = if *obj {
                                     let mut m = BTreeMap::new();
                                     for (n, p) in ps.iter().enumerate() {
@@ -604,7 +619,7 @@ impl<'g> Exec<'g> {
                                 };
                                 Some(Doc {
                                     var: Rcvar::new(var),
-                                    tainted,
+                                    tainted: pt,
                                     shared: true,
                                     realloc: false,
                                 })
@@ -613,7 +628,7 @@ impl<'g> Exec<'g> {
                         DocSpec::Sub { of, idx } => match ds[*of % D_SLOTS].as_ref() {
                             Some(p) if *of % D_SLOTS != d => sub_child(&p.var, *idx).map(|c| Doc {
                                 var: Rcvar::new(Variable::Array(vec![c.clone(), c])),
-                                tainted: p.tainted,
+                                tainted: pt,
                                 shared: true,
                                 realloc: false,
                             }),
@@ -625,11 +640,11 @@ impl<'g> Exec<'g> {
                             shared: false,
                             realloc: false,
                         }),
-                        DocSpec::ResultOf(id) => results.get(id).map(|(v, t)| {
+                        DocSpec::ResultOf(id) => results.get(id).map(|(v, _)| {
                             self.stats.bump("probe.result_fed_back");
                             Doc {
                                 var: v.clone(),
-                                tainted: *t,
+                                tainted: pt,
                                 shared: true,
                                 realloc: false,
                             }
@@ -652,11 +667,19 @@ impl<'g> Exec<'g> {
                 }
                 Op::DropDoc { d } => {
                     ds[*d % D_SLOTS] = None;
+                    ptaint[*d % D_SLOTS] = false;
                     dropped_doc_recent = true;
                     shape.str("x");
                     self.logline(i, format!("dropdoc d{}", d));
                 }
                 Op::Search { id, h, input, plan } => {
+                    search_taint.insert(
+                        *id,
+                        match input {
+                            Input::Doc { slot, .. } => ptaint[*slot % D_SLOTS],
+                            Input::Typed { .. } => false,
+                        },
+                    );
                     let hslot = *h % H_SLOTS;
                     let Some(handle) = hs_[hslot].as_ref() else {
                         self.logline(i, format!("search h{} skipped (empty handle)", h));
@@ -706,6 +729,13 @@ impl<'g> Exec<'g> {
                     }
                 }
                 Op::SearchFresh { id, rt, text, input, plan } => {
+                    search_taint.insert(
+                        *id,
+                        match input {
+                            Input::Doc { slot, .. } => ptaint[*slot % D_SLOTS],
+                            Input::Typed { .. } => false,
+                        },
+                    );
                     let Some(expr) = self.do_compile(i, *rt, text) else {
                         shape.str("f-");
                         continue;
@@ -834,6 +864,9 @@ impl<'g> Exec<'g> {
         let mut ddefs: Vec<DDef> = Vec::new();
         let mut sdefs: Vec<SDef> = Vec::new();
         let mut by_id: HashMap<u64, usize> = HashMap::new();
+        // input document definition of EVERY search op (also of those that P1 skips),
+        // for the build-independent taint rule
+        let mut search_src: HashMap<u64, Option<usize>> = HashMap::new();
         let mut hslot: Vec<Option<(u8, String)>> = vec![None; H_SLOTS];
         let mut dslot: Vec<Option<usize>> = vec![None; D_SLOTS];
         let mut compiles: Vec<(usize, u8, String)> = Vec::new();
@@ -882,6 +915,13 @@ impl<'g> Exec<'g> {
                 }
                 Op::DropDoc { d } => dslot[*d % D_SLOTS] = None,
                 Op::Search { id, h, input, plan } => {
+                    search_src.insert(
+                        *id,
+                        match input {
+                            Input::Doc { slot, .. } => dslot[*slot % D_SLOTS],
+                            Input::Typed { .. } => None,
+                        },
+                    );
                     if let Some((rt, text)) = hslot[*h % H_SLOTS].clone() {
                         let sin = match input {
                             Input::Doc { slot, form } => match dslot[*slot % D_SLOTS] {
@@ -901,6 +941,13 @@ impl<'g> Exec<'g> {
                     }
                 }
                 Op::SearchFresh { id, rt, text, input, plan } => {
+                    search_src.insert(
+                        *id,
+                        match input {
+                            Input::Doc { slot, .. } => dslot[*slot % D_SLOTS],
+                            Input::Typed { .. } => None,
+                        },
+                    );
                     compiles.push((i, *rt, text.clone()));
                     let sin = match input {
                         Input::Doc { slot, form } => match dslot[*slot % D_SLOTS] {
@@ -928,10 +975,45 @@ impl<'g> Exec<'g> {
             ddefs: &'a [DDef],
             sdefs: &'a [SDef],
             by_id: &'a HashMap<u64, usize>,
+            search_src: &'a HashMap<u64, Option<usize>>,
+            taint_memo: std::cell::RefCell<HashMap<usize, bool>>,
             world: &'a World,
         }
         impl<'a> B<'a> {
+            /// Same rule as P1's `ptaint`: follows the definitions, so that it is the
+            /// same in every build and whether or not a part could be built.
+            fn taint(&self, did: usize, depth: u32) -> bool {
+                if depth > 14 {
+                    return false;
+                }
+                if let Some(t) = self.taint_memo.borrow().get(&did) {
+                    return *t;
+                }
+                let t = match &self.ddefs[did] {
+                    DDef::Json(_) | DDef::Deep { .. } => false,
+                    DDef::Compose { parts, .. } => parts.iter().any(|&p| self.taint(p, depth + 1)),
+                    DDef::Sub { of, .. } => self.taint(*of, depth + 1),
+                    DDef::ResultOf(id) => {
+                        let stat = match self.search_src.get(id) {
+                            Some(Some(d)) => self.taint(*d, depth + 1),
+                            _ => false,
+                        };
+                        stat || match self.by_id.get(id) {
+                            Some(&si) => match self.eval_quiet(&self.sdefs[si], depth + 1) {
+                                Some((Some(v), _)) => contains_expref(&v),
+                                _ => false,
+                            },
+                            None => false,
+                        }
+                    }
+                };
+                self.taint_memo.borrow_mut().insert(did, t);
+                t
+            }
             fn build(&self, did: usize, depth: u32) -> Option<(Rcvar, bool)> {
+                self.build_inner(did, depth).map(|(v, _)| (v, self.taint(did, depth)))
+            }
+            fn build_inner(&self, did: usize, depth: u32) -> Option<(Rcvar, bool)> {
                 if depth > 12 {
                     return None;
                 }
@@ -1011,6 +1093,8 @@ impl<'g> Exec<'g> {
             ddefs: &ddefs,
             sdefs: &sdefs,
             by_id: &by_id,
+            search_src: &search_src,
+            taint_memo: std::cell::RefCell::new(HashMap::new()),
             world,
         };
         let run_search = |this: &mut Self, si: usize| {
